@@ -79,11 +79,16 @@ def main():
     os.makedirs(os.path.dirname(outp), exist_ok=True)
     allres = {}
     for sid in ids:
+        extra = []
+        if ":" in sid:          # <seed-id>:C09,C11 — also run these properties' checks
+            sid, ex = sid.split(":", 1)
+            extra = ex.split(",")
         mp = os.path.join(V, "seeded", sid, "meta.json")
         meta = json.load(open(mp)) if os.path.exists(mp) else {"property": sid[:3], "checks": {}}
         pids = [meta["property"]]
         if also:
             pids += [p for p in meta.get("checks", {}) if p not in pids]
+        pids += [p for p in extra if p not in pids]
         res = one(sid, pids, tag)
         allres[sid] = res
         json.dump(allres, open(outp, "w"), indent=1)
